@@ -1386,6 +1386,11 @@ class SaveSuite:
             case = dict(case, recs=case["recs"] + ["C;after the snapshot"])
             obs = dict(obs, shown="\n".join(case["recs"]))
         pre = {None: None, "short": "x", "long": "OLD;" * 5000 + "\r\nTAIL"}[case["pre"]]
+        if case["via"] in ("with", "with_exc", "reenter_foreign"):
+            # the with-block state machine of the model (wl_init / wl_enter / wl_append / wl_exit) against the file the library left
+            stale = [] if case["via"] == "reenter_foreign" else ["C;stale"]
+            return (f"(KWith {cstr(case['name'])} {clist([cstr(r) for r in stale])} {clist([cstr(r) for r in case['recs']])} "
+                    f"{cbool(case['via'] == 'with_exc')} {cbool(case['via'] == 'reenter_foreign')} {copt(pre, cstr)} {copt(obs['content'], cstr)})")
         content = obs["content"]
         # the model starts from "no file"; a refused save leaves the old content, which the model does not carry
         if obs.get("err") and content == pre:
